@@ -1,9 +1,12 @@
 """R-ORDER for C06: unordered containers must not reach order-preserving sinks unsorted.
 
-Taint lattice per expression:  None | U(sens) | CU(sens)
+Taint lattice per expression:  None | U(sens) | CU(sens) | CU-mapping(sens)
   U  = the value *is* an unordered container (set / frozenset / dict-keys of a set origin)
   CU = an ordered container (dict, list, tuple, items view, generator) whose elements or
        values are U
+  CU-mapping = a CU that is known to be a mapping (dict display / comprehension, dict-like
+       annotation): only its VALUES are U - iterating it (``for k in m``, ``list(m)``) yields the
+       keys, which are not; ``m[k]``, ``m.values()``, ``m.items()`` reach the values
   sens = "int"      elements are small ints (qrules edge / node ids): iteration order does
                     not depend on PYTHONHASHSEED
          "history"  elements hash deterministically but the order depends on insertion history
@@ -34,18 +37,39 @@ ORDERED_BUILDERS = {"tuple", "list"}
 ORDER = {"int": 0, "history": 1, "seed": 2}
 
 
+MAPPING_ANN = re.compile(r"\s*(collections\.)?(dict|Dict|Mapping|MutableMapping|defaultdict|DefaultDict|OrderedDict)\b")
+
+
+def _mapping_with_plain_keys(ann: str) -> bool:
+    """``dict[K, V]``-like annotation whose KEY type is not itself an unordered container (only then
+    does iterating the mapping yield something harmless)."""
+    if not MAPPING_ANN.match(ann):
+        return False
+    try:
+        node = ast.parse(ann.strip(), mode="eval").body
+    except SyntaxError:
+        return False
+    if isinstance(node, ast.Subscript) and isinstance(node.slice, ast.Tuple) and len(node.slice.elts) == 2:
+        return not re.search(r"\b(frozenset|set|Set|FrozenSet|AbstractSet)\b", ast.unparse(node.slice.elts[0]))
+    return False
+
+
 def worst(a: str, b: str) -> str:
     return a if ORDER[a] >= ORDER[b] else b
 
 
 class Taint:
-    __slots__ = ("kind", "sens", "origin")
+    __slots__ = ("kind", "sens", "origin", "mapping")
 
-    def __init__(self, kind: str, sens: str, origin: str):
-        self.kind, self.sens, self.origin = kind, sens, origin
+    def __init__(self, kind: str, sens: str, origin: str, mapping: bool = False):
+        self.kind, self.sens, self.origin, self.mapping = kind, sens, origin, mapping and kind == "CU"
 
     def __repr__(self) -> str:
-        return f"{self.kind}({self.sens}: {self.origin})"
+        return f"{self.kind}{'-mapping' if self.mapping else ''}({self.sens}: {self.origin})"
+
+    def elements(self) -> "Taint":
+        """The same container seen as a plain sequence of its (unordered) values."""
+        return Taint(self.kind, self.sens, self.origin)
 
 
 def sens_of_annotation(text: str) -> str:
@@ -67,7 +91,7 @@ def annotation_taint(text: str, origin: str) -> Taint | None:
     if re.match(r"\s*(frozenset|set|Set|FrozenSet|AbstractSet)\b", t):
         return Taint("U", sens_of_annotation(t), origin)
     if re.search(r"\b(frozenset|set)\[", t):
-        return Taint("CU", sens_of_annotation(t), origin)
+        return Taint("CU", sens_of_annotation(t), origin, mapping=_mapping_with_plain_keys(t))
     return None
 
 
@@ -131,6 +155,8 @@ class OrderAnalysis:
             if name in ORDERED_BUILDERS or name in {"dict", "OrderedDict", "enumerate", "zip", "reversed", "iter", "map", "filter", "chain"}:
                 inner = self.taint(expr.args[0], fn, depth + 1) if expr.args else None
                 if inner is not None and inner.kind == "CU":
+                    if inner.mapping and name in ORDERED_BUILDERS | {"enumerate", "reversed", "iter"}:
+                        return None  # the keys of a mapping
                     return inner
                 return None  # tuple(U) / list(U) is a sink, handled separately
             if name in INT_SET_CALLS:
@@ -139,13 +165,13 @@ class OrderAnalysis:
                 return Taint("U", "seed", f".{name}()")
             if name in {"items", "values"} and isinstance(f, ast.Attribute):
                 inner = self.taint(f.value, fn, depth + 1)
-                return inner if inner is not None and inner.kind == "CU" else None
+                return inner.elements() if inner is not None and inner.kind == "CU" else None
             if name in {"keys"}:
                 return None
             if name in {"copy", "union", "intersection", "difference", "symmetric_difference"} and isinstance(f, ast.Attribute):
                 return self.taint(f.value, fn, depth + 1)
             if name == "defaultdict" and expr.args and unparse(expr.args[0]) in {"set", "frozenset"}:
-                return Taint("CU", "seed", f"defaultdict(set) at {fn.qual}")
+                return Taint("CU", "seed", f"defaultdict(set) at {fn.qual}", mapping=True)
             callee = self.tree.callee(expr, fn)
             if callee in self.tree.funcs:
                 g = self.tree.funcs[callee]
@@ -172,7 +198,7 @@ class OrderAnalysis:
             env_t = self.comp_target_taints(expr, fn, depth)
             vt = self.taint_with(expr.value, fn, env_t, depth + 1)
             if vt is not None:
-                return Taint("CU", vt.sens, vt.origin)
+                return Taint("CU", vt.sens, vt.origin, mapping=self.taint_with(expr.key, fn, env_t, depth + 1) is None)
             return None
         if isinstance(expr, (ast.Tuple, ast.List)):
             for e in expr.elts:
@@ -214,6 +240,13 @@ class OrderAnalysis:
                 if t is not None:
                     return Taint("CU", t.sens, t.origin)
             return None
+        if isinstance(expr, ast.Subscript):
+            # ``container[key]`` selects a value of the container whatever the key is (the key may be
+            # a comprehension variable)
+            inner = self.taint_with(expr.value, fn, env, depth + 1)
+            if inner is not None and inner.kind == "CU":
+                return Taint("U", inner.sens, inner.origin)
+            return None
         names = {n.id for n in ast.walk(expr) if isinstance(n, ast.Name)}
         if names & set(env):
             # only direct uses matter; derived scalar values are clean
@@ -230,12 +263,12 @@ class OrderAnalysis:
                 self.loop_sink(fn, comp, gen.iter, it, comp)
             tgt = gen.target
             if isinstance(tgt, ast.Name):
-                env[tgt.id] = Taint("U", it.sens, it.origin) if it is not None and it.kind == "CU" and not self._is_items(gen.iter) else None
+                env[tgt.id] = Taint("U", it.sens, it.origin) if it is not None and it.kind == "CU" and not it.mapping and not self._is_items(gen.iter) else None
             elif isinstance(tgt, ast.Tuple):
                 for i, e in enumerate(tgt.elts):
                     if isinstance(e, ast.Name):
                         env[e.id] = None
-                if it is not None and it.kind == "CU" and len(tgt.elts) == 2 and isinstance(tgt.elts[1], ast.Name):
+                if it is not None and it.kind == "CU" and not it.mapping and len(tgt.elts) == 2 and isinstance(tgt.elts[1], ast.Name):
                     env[tgt.elts[1].id] = Taint("U", it.sens, it.origin)
         return env
 
@@ -272,12 +305,12 @@ class OrderAnalysis:
                     return t
             t = self.taint(d.value, owner, depth)
             if t is not None and d.index is not None and t.kind == "CU":
-                return Taint("U", t.sens, t.origin) if d.index == 1 else None
+                return Taint("U", t.sens, t.origin) if d.index == 1 and not t.mapping else None
             return t
         if d.kind in {"for", "comp"} and d.value is not None:
             it = self.taint(d.value, owner, depth)
-            if it is None or it.kind != "CU":
-                return None
+            if it is None or it.kind != "CU" or it.mapping:
+                return None  # (iterating a mapping yields its keys)
             if self._is_items(d.value):
                 return Taint("U", it.sens, it.origin) if d.index == 1 else None
             if d.index is None:
